@@ -226,6 +226,29 @@ def apply_edit(p, kind, rng):
         s = rng.choice(cands)
         s["e"] = dict(s["e"], r=lit("$", "oops"))      # a fresh node: expression objects may be shared between statements
         return p, s["id"]
+    if kind == "foreignlabel":
+        # the label exists - inside another procedure (or, seen from a procedure, in the main module): labels are local
+        main_j = [x for x in mast.walk_stmts(p["main"]) if x["k"] in ("goto", "gosub")]
+        sub_j = [(sb, x) for sb in p.get("subs", []) for x in mast.walk_stmts(sb["body"]) if x["k"] in ("goto", "gosub")]
+        ids = mast.Ids() if hasattr(mast, "Ids") else None
+        fresh = max([x["id"] for x in sts] + [0]) + 1
+        lab = {"k": "label", "id": fresh, "l": "FOREIGNL"}
+        if main_j and p.get("subs"):
+            s = rng.choice(main_j)
+            p["subs"][-1]["body"].append(lab)
+            s["l"] = "FOREIGNL"
+            return p, s["id"]
+        if sub_j:
+            sb, s = rng.choice(sub_j)
+            others = [x for x in p["subs"] if x is not sb]
+            if others and rng.random() < 0.5:
+                others[0]["body"].append(lab)
+            else:
+                # before END would make it unreachable code only if main ends with END; a label line is harmless anywhere
+                p["main"].insert(0, lab)
+            s["l"] = "FOREIGNL"
+            return p, s["id"]
+        return None
     if kind == "missinglabel":
         cands = [s for s in sts if s["k"] in ("goto", "gosub")]
         if not cands:
@@ -389,7 +412,7 @@ def run(tier, replay):
     bases = base_programs(tier, rng)
     ecases = []
     for p in bases:
-        for kind in ("strop", "missinglabel", "argcount", "byreftype", "duplicate", "nextcounter"):
+        for kind in ("strop", "missinglabel", "foreignlabel", "argcount", "byreftype", "duplicate", "nextcounter"):
             r = apply_edit(p, kind, rng)
             if r is None:
                 continue
